@@ -131,6 +131,7 @@ def run_check(check_id, tier, repo, jobs, seed):
     rnd.shuffle(tasks)               # order only; the explored set is fixed
     merged = Result()
     per_backend = {}
+    per_regime = {}
     skipped = []
     walls = []
     errors = []
@@ -158,6 +159,15 @@ def run_check(check_id, tier, repo, jobs, seed):
             merged.outcomes |= r["outcomes"]
             for k, v in r["counters"].items():
                 merged.counters[k] = merged.counters.get(k, 0) + v
+            label = common.dumps({k: v for k, v in t.items()
+                                  if k not in ("backend", "shard", "nshards")})
+            pr = per_regime.setdefault(label, {"tasks": 0, "states": 0, "evaluations": 0,
+                                               "_sigs": set(), "_out": set()})
+            pr["tasks"] += 1
+            pr["states"] += r["states"]
+            pr["evaluations"] += r["evaluations"]
+            pr["_sigs"] |= r["sigs"]
+            pr["_out"] |= r["outcomes"]
             pb = per_backend.setdefault(r["backend"], {"tasks": 0, "evaluations": 0})
             pb["tasks"] += 1
             pb["evaluations"] += r["evaluations"]
@@ -249,6 +259,13 @@ def run_check(check_id, tier, repo, jobs, seed):
         "exhaustive": bool(plan.get("exhaustive", True)) and not skipped,
         "bounds": plan.get("bounds", {}),
         "per_backend": per_backend,
+        # non-vacuity per explored regime (task descriptor without backend / shard): how many
+        # distinct non-trivial cases and distinct observed outcomes that regime produced
+        "per_regime": [{"regime": json.loads(k), "tasks": v["tasks"], "states": v["states"],
+                        "evaluations": v["evaluations"],
+                        "distinct_nontrivial": len(v["_sigs"]),
+                        "distinct_outcomes": len(v["_out"])}
+                       for k, v in sorted(per_regime.items())],
         "counters": merged.counters,
         "skipped_configurations": skipped,
         "violation_signatures": {s: merged.viol_count[s] for s in merged.viol_count},
